@@ -143,20 +143,11 @@ class SharedModelHistory:
     def __init__(self, first, ctx):
         self.cfg = first["cfg"]
         self.ctx = ctx
-        # the shared model's gamma callback is the configured one behind a pass-through wrapper that the harness can arm to raise at its
-        # k-th invocation: a rate() call that is INTERRUPTED part-way (rule interrupted_call); unarmed it changes no number
-        inner = mk_model(self.cfg).gamma
-        self.trip = {"armed": False, "after": 0, "count": 0}
-        trip = self.trip
+        # the shared model's gamma callback is the configured one behind a pass-through wrapper that the harness can arm to raise (a drawn
+        # exception class) at its k-th invocation: a rate() call that is INTERRUPTED part-way; unarmed it changes no number
+        from vf import failing
 
-        def gamma(*a, **kw):
-            if trip["armed"]:
-                trip["count"] += 1
-                if trip["count"] > trip["after"]:
-                    raise _Interrupted("gamma callback raised (harness)")
-            return inner(*a, **kw)
-
-        self.model = mk_model(self.cfg, gamma=gamma)
+        self.model, self.trip = failing.tripwire_model(self.cfg)
         self.nontrivial = False
         self.labels = ["kind:" + self.cfg["kind"]]
         self.prev = None
@@ -181,14 +172,12 @@ class SharedModelHistory:
         if job.get("interrupted") is not None:
             # a valid rate() call that does not complete: the user's gamma callback raises at its k-th invocation.  Whatever the call
             # leaves behind, it must not change what LATER calls on this model (or on any other model) return.
-            self.trip.update(armed=True, after=int(job["interrupted"]), count=0)
+            self.trip.update(armed=True, after=int(job["interrupted"]), count=0, exc=job.get("exc", "Interrupted"))
             try:
                 run_job(self.model, job)
                 self.labels.append("interrupted-call:completed") if "interrupted-call:completed" not in self.labels else None
-            except _Interrupted:
+            except Exception:  # noqa: BLE001 - the interrupted call itself is not judged
                 self.labels.append("interrupted-call:raised") if "interrupted-call:raised" not in self.labels else None
-            except Exception as e:  # noqa: BLE001
-                raise Violation(f"raised:{type(e).__name__}", f"{self.cfg['kind']} rate() with a raising gamma callback raised {type(e).__name__}: {e}") from None
             finally:
                 self.trip["armed"] = False
             self.ctx.called()
@@ -245,7 +234,7 @@ SharedModelHistory.RULES = {
     "failed_call": _failing,
     "out_of_range_call": _absurd,
     "interrupted_call": lambda h: st.tuples(jobs_for(h.cfg, max_teams=4, max_size=3), st.integers(0, 5)).map(
-        lambda jk: dict(jk[0], op="rate", call=jk[0].get("call", {}), interrupted=jk[1])),
+        lambda jk: dict(jk[0], op="rate", call=jk[0].get("call", {}), interrupted=jk[1], exc=["Interrupted", "TypeError", "KeyError", "ValueError"][jk[1] % 4])),
     "rate_or_predict": lambda h: jobs_for(h.cfg, max_teams=4, max_size=3),
     "rate_with_limit": lambda h: jobs_for(h.cfg, max_teams=3, max_size=2).map(
         lambda j: dict(j, op="rate", call=dict(j.get("call", {}), limit_sigma=True))),
@@ -497,7 +486,12 @@ def run_cold(case, tag):
     total = 0
     for job in jobs:
         fresh = mk_model(cfg)
-        steps, res = count_steps(lambda fresh=fresh, job=job: run_job(fresh, job), opcodes=bool(case.get("opcodes")))
+        try:
+            steps, res = count_steps(lambda fresh=fresh, job=job: run_job(fresh, job), opcodes=bool(case.get("opcodes")))
+        except HarnessError:
+            raise
+        except Exception as e:  # noqa: BLE001
+            raise Violation(f"raised:{type(e).__name__}", f"sequential {job['op']} raised {e!r}") from None
         expected.append(res)
         total += steps
     here = os.path.dirname(os.path.dirname(os.path.dirname(os.path.abspath(__file__))))
@@ -674,7 +668,7 @@ def stress_custom(ctx, seed, tier, shard, nshards, n):
         for case in cases:
             cfg, jobs = case["cfg"], case["jobs"]
             ctx.begin(case)
-            expected = [run_job(mk_model(cfg), job) for job in jobs]
+            expected = [guarded_job(mk_model(cfg), job, "sequential") for job in jobs]
             shared = mk_model(cfg)
             bad = []
             barrier = threading.Barrier(2 * len(jobs))
